@@ -104,6 +104,11 @@ def gen_line_or_scatter(rng, kind, tier):
     singleton = rng.random() < 0.2
     if singleton:
         raw["dims"]["s"] = 1
+    # a second free dimension of the SAME length as x (a "square" dataset: variables stored with different
+    # dimension orders then have equal shapes and must still be paired by dimension name)
+    square = (not has_z) and not row and not col and rng.random() < 0.4
+    if square:
+        raw["dims"]["w"] = raw["dims"]["x"]
     active = list(raw["dims"].keys())
     raw["coords"]["x"] = make_coord(rng, ids, raw["dims"]["x"], rng.choice(["int", "float"]))
     if has_z:
@@ -114,6 +119,8 @@ def gen_line_or_scatter(rng, kind, tier):
         raw["coords"]["k"] = make_coord(rng, ids, raw["dims"]["k"])
     if singleton:
         raw["coords"]["s"] = make_coord(rng, ids, 1, "int")
+    if square:
+        raw["coords"]["w"] = make_coord(rng, ids, raw["dims"]["w"], "int")
     p_nan = rng.choice([0.0, 0.1, 0.3])
     p_inf = rng.choice([0.0, 0.05, 0.1])
     multi = (not has_z) and rng.random() < 0.45
@@ -123,8 +130,9 @@ def gen_line_or_scatter(rng, kind, tier):
     case = {"kind": kind, "auto": False, "ds": raw, "x": "x", "y": (ynames if multi else "a"),
             "z": "z" if has_z else None, "c": None, "y_err": None, "x_err": None, "row": row, "col": col,
             "opts": opts}
-    # x as a data variable (points = pairs of two variables)
-    if rng.random() < 0.3:
+    # x as a data variable (points = pairs of two variables); always on a square dataset (with x a dimension
+    # coordinate xyzpy declines a second free dimension)
+    if square or rng.random() < 0.3:
         xdims = perm(rng, active) if rng.random() < 0.7 else perm(rng, [d for d in active if d != "z"])
         if "x" not in xdims:
             xdims.append("x")
@@ -153,7 +161,7 @@ def gen_line_or_scatter(rng, kind, tier):
             case["x_err"] = "xe"
         if rng.random() < 0.3:
             if kind == "lineplot":
-                cd = [d for d in active if d not in ("x", "s")]
+                cd = [d for d in active if d not in ("x", "s", "w")]
                 raw["vars"]["cc"] = make_var(rng, ids, raw, perm(rng, cd), 0, 0, finite=True)
                 case["c"] = "cc"
             else:
